@@ -484,6 +484,14 @@ func statusFunction(r *sim.Record) []V {
 		gp := oracle.EDSCond(&got, edsv1.ConditionTypeEDSCanaryPaused)
 		cmp("cond Canary-Failed", gf != nil && gf.Status == corev1.ConditionTrue, exp.FailedCond)
 		cmp("cond Canary-Paused", gp != nil && gp.Status == corev1.ConditionTrue, exp.PausedCond)
+		// a true condition agrees with the facts it reports: the pause reason shown in status.reason and the
+		// canary replica set it is about
+		if exp.State == edsv1.ExtendedDaemonSetStatusStateCanaryPaused && exp.PausedCond && gp != nil && gp.Status == corev1.ConditionTrue {
+			cmp("cond Canary-Paused reason", gp.Reason, string(exp.Reason))
+			if exp.CanaryRS != "" && !strings.Contains(gp.Message, exp.CanaryRS) {
+				diffs = append(diffs, fmt.Sprintf("cond Canary-Paused message=%q does not name the canary replica set %s", gp.Message, exp.CanaryRS))
+			}
+		}
 	}
 	if len(diffs) == 0 {
 		return nil
